@@ -1,6 +1,7 @@
 //! vp: compiler / package-manager properties (everything except the text-only and LSP ones).
 mod asmprops;
 mod irprops;
+mod optable;
 mod pkgprops;
 mod progprops;
 mod smoke;
@@ -34,6 +35,7 @@ fn main() {
                 "ir-dump" => irprops::dump_ir(&args[2..]),
                 "ir-parse" => irprops::dev_parse(&args[2..]),
                 "ir-passes" => irprops::dev_passes(&args[2..]),
+                "c01-replay" => progprops::dev_c01_replay(&args[2..]),
                 "gen-dump" => progprops::dump(&args[2..]),
                 "smoke" => smoke::run(&args[2..]),
                 "replay" => replay(&args[2]),
